@@ -1,5 +1,5 @@
 #!/bin/bash
-# evaluate every seed under /tmp/wt-C*/seed/* (or the ids given) against a snapshot of the harness
+# evaluate seeds against a snapshot of the harness: args = seed dirs (default: all)
 cd /verif
 python3 tools/seedtest.py --prepare
 for d in ${@:-/tmp/wt-C*/seed/[0-9]}; do
